@@ -434,13 +434,15 @@ fn other_types(rep: &Report) -> (u64, Vec<&'static str>) {
             ("unique_key", |s| { s.unique_key(); }),
             ("primary_key", |s| { s.primary_key(); }),
             ("check", |s| { s.check(Expr::col(a("c")).gt(0)); }),
+            ("check-again", |s| { s.check(Expr::col(a("c")).lt(10)); }),
             ("generated", |s| { s.generated(Expr::col(a("d")).add(1), true); }),
             ("extra", |s| { s.extra("COLLATE NOCASE"); }),
+            ("extra-again", |s| { s.extra("CHECK (c <> 7)"); }),
             ("comment", |s| { s.comment("cm"); }),
             ("using", |s| { s.using(Expr::cust("c::int")); }),
         ],
     };
-    cases += probe_type(rep, &cd, 12);
+    cases += probe_type(rep, &cd, 14);
     types.push(cd.name);
     let ws = TypeProbe::<WindowStatement> {
         name: "WindowStatement",
